@@ -69,14 +69,17 @@ def run(tier, seed, rng):
     # equal digit sums), the first declaration cached, the second defined in the same and in a fresh process
     import json as _json
     def custom(body, conf='{}'):
-        return 'custom:' + _json.dumps(dict(conf=conf, body=body), sort_keys=True)
+        return 'custom:' + _json.dumps(dict(conf=conf, body=body), sort_keys=True, ensure_ascii=True)
     digs = [f"{a}{b}{c}" for a in '012' for b in '012' for c in '012']
     anagrams = [(x, y) for i, x in enumerate(digs) for y in digs[i + 1:] if sum(map(int, x)) == sum(map(int, y))]
     if tier == 'quick':
         anagrams = [p for k, p in enumerate(anagrams) if k % 2 == seed % 2 or p in (('121', '202'), ('020', '101'), ('010', '001'))]
-    for x, y in anagrams:
-        v1 = custom(f"r_{x} = Int(1)\n    r_{y} = Int(2)")
-        v2 = custom(f"r_{y} = Int(1)\n    r_{x} = Int(2)")
+    pairs = [(f"r_{x}", f"r_{y}") for x, y in anagrams]
+    # ... and identifiers outside ASCII (legal field names): exchanged, and differing from an ASCII name by one letter
+    pairs += [('\u03b1', '\u03b2'), ('caf\u00e9', 'cafe'), ('\u00e9t\u00e9', '\u00e8t\u00e9'), ('n\u0303', 'n')]
+    for a, b in pairs:
+        v1 = custom(f"{a} = Int(1)\n    {b} = Int(2)")
+        v2 = custom(f"{b} = Int(1)\n    {a} = Int(2)")
         hists.append([(False, [dict(variant=v1)]), (False, [dict(variant=v2)])])
         hists.append([(True, [dict(variant=v2), dict(variant=v1)])])
     # ---- survey of the constant the generated module is recognised by: many declarations, any two with the same constant but
